@@ -381,10 +381,14 @@ def errarm_rules(facts, rep, reach):
             # blocks reachable from the Err side that are ALSO reachable from the Ok side = the computation carries on after the error
             rejoin = (f.reach_from_inclusive(errt, avoid={sb}) & ok_reach)
             # (shared epilogue blocks -- drops, storage markers, the return itself -- do no work)
-            rejoin = {x for x in rejoin if not f.blocks[x]["cleanup"] and f.term(x) and f.term(x)["k"] == "call"}
+            rejoin = {x for x in rejoin if not f.blocks[x]["cleanup"] and f.term(x) and f.term(x)["k"] == "call" and
+                      not callee_matches(f.term(x), r"Result::<T, E>::map_err$|convert::(From::from|Into::into)$|FromResidual::from_residual$")}
             # the tested result itself is what the function returns: the error travels with it
             rets = ret_alts_all(f, ex)
             returned = any(r_ == d[1] for r_ in rets)
+            # ... or re-wrapped on the way out (`io_call().map(..).map_err(ZipError::from)` as the tail expression): the tested result's
+            # own error sits inside every returned value that stems from the Err side
+            carried = any(any(x == ("err", d[1]) for x in walk(r_)) for r_ in rets)
             # a common `return` block with the Err value already built is the usual lowering: accept when the Err side builds an Err/propagates
             builds_err = any(st_["k"] == "assign" and st_["rv"]["k"] == "agg" and st_["rv"].get("variant") == "Err" for x in err_only for st_ in f.blocks[x]["stmts"]) or \
                 any(f.term(x) and f.term(x)["k"] == "call" and callee_matches(f.term(x), r"FromResidual::from_residual$|Result::<T, E>::map_err|convert::From::from$") for x in err_only)
@@ -400,7 +404,7 @@ def errarm_rules(facts, rep, reach):
             carries_on = [f.term(x)["callee"] for x in err_only if not f.blocks[x]["cleanup"] and f.term(x) and f.term(x)["k"] == "call" and
                           not callee_matches(f.term(x), r"FromResidual::from_residual$|convert::(From::from|Into::into)$|Result::<T, E>::map_err$|io::Error::new$|"
                                                         r"fmt::|format|ZipError|drop_in_place|mem::drop$|ToString::to_string$|string::String")]
-            good = (builds_err and not rejoin and not carries_on) or returned
+            good = (builds_err and not rejoin and not carries_on) or returned or (carried and builds_err and not rejoin and not carries_on)
             if not good:
                 # second opinion, path-sensitive: on every path that takes the Err edge nothing but error construction follows and the
                 # function returns an error (a helper that turns the failure into its own error, inlined here, joins the success path
